@@ -151,6 +151,9 @@ def replay_client_trace(pid, path):
     if rp.get('kind') == 'l2-client-trace':
         rp['_path'] = path
         return replay_l2_client(pid, rp)
+    if rp.get('kind') in ('l2-poll-trace', 'l2-poll-schedule'):
+        rp['_path'] = path
+        return replay_l2_poll(pid, rp)
     if rp.get('kind') != 'client-trace':
         print(json.dumps(rp, indent=1)[:3000])
         return 1
@@ -327,3 +330,192 @@ def replay_l2_client(pid, rp):
     print('VIOLATION property=%s replay=%s' % (pid, rp.get('_path', '?')))
     return 1
 
+
+# ---- L2: the threaded client on polling (EioClientFinePoll) -----------------------------------
+
+POLL_INVS = ['TypeOK', 'AtMostOnePerCause', 'TxInOrder', 'NoLateMessage', 'ClearedMeansOver',
+             'EndsWithEvent']
+
+
+def _poll_trace_consts(k):
+    return dict(MaxSend=k, Cap=16, MaxPolls=3, Payloads='<- PayloadsAll', AllowFail='TRUE',
+                Timeouts='TRUE', Deviation='"none"')
+
+
+def _f27_shape(ev):
+    """two events, one of them the application's own disconnect (the listed signature)"""
+    return len(ev) == 2 and 'client' in ev and ev[0] != ev[1]
+
+
+def l2_client_poll(ck, th, seed):
+    """TLC on EioClientFinePoll (application thread, write loop, read loop and a server answering
+    every request as it likes), then pre-emptive executions of the real threaded Client on
+    polling validated primitive by primitive, then TLC-generated schedules replayed on it."""
+    from .. import tlc
+    from ..harness import l2
+    opn, _ = load_known_findings(ck.pid)
+    f27 = [e for e in opn if e['id'] == 'F27']
+    base = dict(MaxSend=3 if th else 2, Cap=2, MaxPolls=2,
+                Payloads='<- PayloadsAll' if th else '<- PayloadsSmall', AllowFail='TRUE',
+                Timeouts='TRUE', Deviation='"none"')
+    small = dict(base, MaxSend=1, Payloads='<- PayloadsSmall')
+    jobs = [dict(name='L2 client (polling): application burst + disconnect(), write loop (queue -> '
+                      'POST), read loop (GET -> packets), server answering with any payload / error '
+                      '/ failure: event, message and order invariants',
+                 spec='Spec', consts=base, invariants=POLL_INVS),
+            dict(name='L2 polling client liveness under fair scheduling: the three tasks end, the '
+                      'client is disconnected', spec='FairSpec', consts=small, properties=['AllEnd']),
+            dict(name='L2 polling client: with a server that answers properly the application\'s '
+                      'disconnect() reaches it (CLOSE posted or the server closed first)',
+                 spec='FairSpec', consts=dict(small, AllowFail='FALSE', Timeouts='FALSE'),
+                 properties=['CloseReaches']),
+            dict(name='L2 polling client negative control: without the per-packet state check '
+                      '(the defect F24 repaired) a message event fires after the disconnect event',
+                 spec='Spec', consts=dict(small, Deviation='"NoStateCheckPerPacket"'),
+                 invariants=['NoLateMessage'], must_fail=True),
+            dict(name='L2 polling client: one disconnect event per connection - expected to fail '
+                      '(finding F27: disconnect() changes the state only after its two puts)',
+                 spec='Spec', consts=small, invariants=['OneDisconnect'], f27=True)]
+    for j in jobs:
+        cfg = tlc.cfg_text(spec=j['spec'], constants=j['consts'], invariants=j.get('invariants', ()),
+                           properties=j.get('properties', ()))
+        r = tlc.run('EioClientFinePoll', cfg, workers=max(2, NCPU // 2), timeout=1800,
+                    constants=j['consts'])
+        if r.error:
+            raise MachineryError('TLC job %s failed: %s\n%s' % (j['name'], r.error, r.out[-2000:]))
+        ck.add_tlc(r, j['name'])
+        if j.get('must_fail'):
+            if not r.violated:
+                raise MachineryError('negative control did not fail: %s' % j['name'])
+            continue
+        if j.get('f27'):
+            txt = '\n'.join(r.trace)
+            last = txt.split('/\\ ev = ')[-1][:60]
+            if r.violated and f27 and '"client"' in last:
+                ck.known_finding('F27', f27[0]['what'])
+                ck.cov.setdefault('known_finding_counterexamples', []).append(
+                    {'model': j['name'], 'length': len(r.trace)})
+            elif r.violated:
+                ck.violation('EioClientFinePoll: OneDisconnect violated and the finding is not listed',
+                             {'counterexample': txt[-6000:]})
+            continue
+        if r.violated:
+            ck.violation('EioClientFinePoll: %s violated (%s)' % (r.violated, j['name']),
+                         {'job': j['name'], 'counterexample': '\n'.join(r.trace)[-8000:]})
+        elif r.distinct < 500:
+            raise MachineryError('vacuity: %s has only %d states' % (j['name'], r.distinct))
+    # ---- code -> spec ---------------------------------------------------------------------------
+    n = 1500 if th else 300
+    groups = {}
+    for i in range(n):
+        k = i % 4
+        script = (k, 1 + i % 3, i % 4 == 0)
+        t, f = l2.run_client_poll(*script, seed=seed * 100057 + i)
+        groups.setdefault(k, []).append((t, f))
+        ck.distinct(['l2poll', script, f['schedule_seed']])
+    nacc = ntot = nf27 = 0
+    for k, items in groups.items():
+        v = tracecheck.validate('EioClientFinePollTrace', [x[0] for x in items],
+                                constants=_poll_trace_consts(k), invariants=POLL_INVS)
+        ck.cov['states'] += v.states
+        ck.cov['transitions'] += v.generated
+        nacc += len(v.accepted)
+        ntot += len(items)
+        for i in v.rejected[:3]:
+            ck.violation('primitive-level polling-client trace rejected by EioClientFinePoll '
+                         '(schedule seed %s)' % items[i][1]['schedule_seed'],
+                         {'script': items[i][1]['script'], 'schedule_seed': items[i][1]['schedule_seed'],
+                          'trace': items[i][0], 'kind': 'l2-poll-trace'})
+        for i, inv, txt in v.inv_violations[:3]:
+            ck.violation('EioClientFinePoll invariant %s violated on a real execution' % inv,
+                         {'script': items[i][1]['script'], 'schedule_seed': items[i][1]['schedule_seed'],
+                          'tlc': txt, 'kind': 'l2-poll-trace'})
+        for t, f in items:
+            if len(t['final']['ev']) > 1:
+                nf27 += 1
+                if f27 and _f27_shape(t['final']['ev']):
+                    ck.known_finding('F27', f27[0]['what'])
+                else:
+                    ck.violation('several client disconnect events for one connection: %r (schedule '
+                                 'seed %s)' % (t['final']['ev'], f['schedule_seed']),
+                                 {'script': f['script'], 'schedule_seed': f['schedule_seed'],
+                                  'trace': t, 'kind': 'l2-poll-trace'})
+    ck.cov['f27_schedules_polling'] = nf27
+    ck.add_conformance('threaded Client on polling with a server task answering every request at a '
+                       'random moment (payloads of NOOP / MSG / PING / CLOSE, error status, failure) '
+                       'under pre-emptive schedules: every primitive of the send queue (call of put, '
+                       'put, call of get, get), of the HTTP layer (request leaves, request returns), '
+                       'every call of Thread.join and every task return is one step of '
+                       'EioClientFinePoll; final state, events, accepted packets, message count '
+                       'and queue must match', ntot, nacc)
+    # ---- spec -> code ---------------------------------------------------------------------------
+    from . import core as _core
+    sc = dict(MaxSend=2, Cap=16, MaxPolls=2, Payloads='<- PayloadsSmall', AllowFail='TRUE',
+              Timeouts='FALSE', Deviation='"none"')
+    cfg = tlc.cfg_text(spec='SimSpec', constants=sc, constraints=['EmitSchedule'])
+    r = tlc.run('EioClientFinePollSim', cfg, simulate='num=%d' % (800 if th else 200), depth=120,
+                workers=1, seed=seed + 5, timeout=900, constants=sc)
+    if r.error:
+        raise MachineryError('EioClientFinePollSim simulation failed: %s\n%s' % (r.error, r.out[-1500:]))
+    ck.add_tlc(r, 'simulation of EioClientFinePollSim: complete behaviours with their schedules')
+    seen, i, txt = {}, 0, r.out
+    while True:
+        i = txt.find('<< "SCHEDULE"', i)
+        if i < 0:
+            break
+        j = _core._balanced(txt, i)
+        key, i = txt[i:j], j
+        if key not in seen:
+            seen[key] = tlc.parse_tla_value(key)
+    nrep = nsame = ntwo = 0
+    for key, v in seen.items():
+        sched = v[1]
+        model = {'ev': list(v[2]), 'posted': list(v[3]), 'rx': v[4], 'st': v[5], 'q': list(v[6])}
+        nrep += 1
+        try:
+            t, left = l2.replay_client_poll_schedule(2, sched)
+        except RuntimeError as e:
+            ck.violation('the real Client cannot follow a TLC schedule of EioClientFinePoll: %s' % e,
+                         {'schedule': sched, 'kind': 'l2-poll-schedule'})
+            continue
+        real = {x: t['final'][x] for x in model}
+        same = real == model and not left
+        nsame += bool(same)
+        if not same and nrep - nsame <= 3:
+            ck.violation('under a TLC schedule the real polling Client ends with %r, '
+                         'EioClientFinePoll with %r (unfinished tasks: %r)' % (real, model, left),
+                         {'schedule': sched, 'real': t, 'kind': 'l2-poll-schedule'})
+        if same and len(model['ev']) > 1:
+            ntwo += 1
+            if f27 and _f27_shape(model['ev']):
+                ck.known_finding('F27', f27[0]['what'])
+            else:
+                ck.violation('several disconnect events under a TLC schedule', {'schedule': sched})
+        ck.distinct(['l2pollsched', [(e['p'], e['silent'], list(e['ans'])) for e in sched]])
+    if nrep < 20:
+        raise MachineryError('vacuity: only %d complete behaviours came out of the simulation' % nrep)
+    ck.add_conformance('spec -> code at L2 (polling): complete behaviours of EioClientFinePoll '
+                       'generated by TLC, each replayed on the real threaded Client under exactly '
+                       'its schedule and with the server answers TLC chose; final events, accepted '
+                       'packets, message count, state and queue must equal the model\'s', nrep, nsame,
+                       behaviours_with_two_disconnect_events=ntwo)
+
+
+def replay_l2_poll(pid, rp):
+    from ..harness import l2
+    if rp.get('kind') == 'l2-poll-schedule':
+        t, left = l2.replay_client_poll_schedule(2, rp['schedule'])
+        print(json.dumps(t['final']), 'unfinished:', left)
+        print('VIOLATION property=%s replay=%s' % (pid, rp.get('_path', '?')))
+        return 1
+    sc = rp['script']
+    t, f = l2.run_client_poll(sc['k'], sc['maxpolls'], sc['allowfail'], seed=rp['schedule_seed'])
+    v = tracecheck.validate('EioClientFinePollTrace', [t], constants=_poll_trace_consts(sc['k']),
+                            invariants=POLL_INVS)
+    if v.accepted and not v.inv_violations and len(t['final']['ev']) <= 1:
+        print('replay: primitive-level polling-client trace accepted by EioClientFinePoll; events %r'
+              % t['final']['ev'])
+        return 0
+    print(json.dumps(t)[:4000])
+    print('VIOLATION property=%s replay=%s' % (pid, rp.get('_path', '?')))
+    return 1
